@@ -5,7 +5,7 @@ import numpy as np
 
 from harness import circgen as cg, logicsim_corr as lc, simcheck as sk, wavecheck as wk, wavesim_corr as wc, map_oracle as mo
 
-THEOREMS = []
+THEOREMS = ['C07_levels_valid', 'C07_any_order_in_level', 'C07_threads_once']
 
 
 def permute_levels(sim, rng):
@@ -156,9 +156,10 @@ def run(ck):
     ck.rule('random circuits x options; op rows permuted inside every level (LogicSim 2/4/8, WaveSim), mock GPU launcher iterating a '
             'random thread order (assign, eval, capture kernels); independent schedule checker (operands produced in earlier levels, '
             'released memory not handed out in the same level)')
-    ck.trust('no Coq theorem is specific to this property yet (levels_valid / perm_level are planned over Model/SimOps.v): decided by '
-             'differential execution with permuted schedules and an independent schedule/liveness checker; true sub-kernel GPU '
-             'interleavings cannot be exhibited by the mock launcher')
+    ck.trust('the theorems are about the Gallina transcription of the levelisation (Model/SimOps.v levelize/split_levels) and the '
+             'line-level op semantics (Model/AllocCheck.v); that SimOps.build always emits an op list in single-assignment topological '
+             'form (ssa_topo) is checked per generated circuit by the certificate, not yet proved for all circuits; an interleaving '
+             'semantics below kernel-instance granularity is not modelled, and the mock launcher cannot exhibit it')
     for desc, what in fails[:5]:
         ck.fail('schedule:' + desc.get('kind', '?'), what, {'component': 'SimOps levels / level_eval / MockCuda launcher', 'input': desc, 'actual': what})
 
